@@ -169,6 +169,18 @@ CHECKS = {
         '(entries replaced by the dyadic rational within 1e-12). In (B) the history quantifier is by ENUMERATION, the solver only quantifies over the coefficient vector (linear identities). '
         'Not applicable: bspline.prolongation itself (numeric collocation solve), virtual_hierarchy_prolongators, HSplineFunc evaluation routes.',
    technique='symbolic execution of real Python source + z3 (rational-function identities per polynomial piece; LRA for the hybrid part)'),
+ 'C01': dict(
+   category='translation_validation', design_ref='4/C01',
+   text='Per-program translation validation of the code generator (step B of the two-step argument; step A, original form = finalised form, is C06 on the same corpus and grammar): '
+        'for each form of the fixed corpus (shipped forms, test/doc forms, two-space Petrov-Galerkin forms, operand-order forms) and of a seeded bounded grammar, the text returned by the real '
+        'pyiga.compile.generate() is transliterated as a whole class on top of the transliterated base classes and instantiated symbolically (real KnotVector objects with 1-2 spans, mixed degrees '
+        'and repeated knots; symbolic univariate basis jets that vanish outside the mesh support; symbolic geometry/field jets, Gauss weights and parameters). For every index pair z3 decides that '
+        'entry_impl returns the sum over the quadrature nodes in the support intersection of the denotation of the finalised form (own semantics, vfsem), that nothing is written for disjoint supports, '
+        'that vector forms deliver their components in row-major (test, trial) order, and that the constructor uses max-degree+1 nodes per span over ALL spaces. Violations are replayed on the real '
+        'tool-chain: the compiled assembler against the numeric denotation of the ORIGINAL form on real spline data.',
+   note='Trusted: z3, vfsem semantics, cyx transliteration, basis/field stubs (contracts of C02/C07), coordinate convention (parametric coordinate c <-> knot-vector axis d-1-c), ratnorm. '
+        'Unsupported programs (boundary/surface forms, derivatives of physical fields, degenerate constants) are listed and not counted; gcc/Cython/loader acceptance is only exercised by replays.',
+   technique='translation validation per program: symbolic execution of the transliterated generated Cython class vs a denotational semantics, z3 (polynomial/rational identities)'),
 }
 
 NA = {
